@@ -12,14 +12,15 @@ Section MachineProofs.
 Variable HS : Type.
 Variable handle : HS -> msg -> HS * verdict.
 Variable rl : role.
+Variable pol : policy.
 Variable budget : nat -> nat.
 Variable short : nat -> bool.
 
-Notation feedx := (feedx HS handle rl).
+Notation feedx := (feedx HS handle rl pol).
 Notation papp := (papp HS).
-Notation ev := (ev HS handle rl budget short).
-Notation drain := (drain HS handle rl budget short).
-Notation run_segs := (run_segs HS handle rl budget short).
+Notation ev := (ev HS handle rl pol budget short).
+Notation drain := (drain HS handle rl pol budget short).
+Notation run_segs := (run_segs HS handle rl pol budget short).
 Notation mst := (mst HS).
 
 (* what the decoder would do from machine state s with the bytes y *)
@@ -27,21 +28,21 @@ Definition A (s : mst) (y : list N) := feedx (m_h s) (m_mode s) (m_buf s ++ y).
 
 Definition good (s : mst) : Prop :=
   feedx (m_h s) (m_mode s) (m_buf s) = PRes (m_h s) (m_mode s) (m_buf s) [] /\
-  match m_mode s with RIdle => one_msg rl (m_buf s) = NeedMore | _ => m_buf s = [] end.
+  match m_mode s with RIdle => one_msg pol rl (m_buf s) = NeedMore | _ => m_buf s = [] end.
 
 Lemma good_of_feed h m l h1 m1 b1 es1 c :
   feedx h m l = PRes h1 m1 b1 es1 -> good (mk_mst h1 m1 b1 c).
 Proof.
   intros H. split; cbn.
   - eapply feedx_idem; eauto.
-  - exact (feedx_shape HS handle rl (S (mu m l)) _ _ _ _ _ _ _ (Nat.lt_succ_diag_r _) H).
+  - exact (feedx_shape HS handle rl pol (S (mu m l)) _ _ _ _ _ _ _ (Nat.lt_succ_diag_r _) H).
 Qed.
 
 Lemma A_step h m b got h1 m1 b1 es1 :
   feedx h m (b ++ got) = PRes h1 m1 b1 es1 ->
   forall y, feedx h m (b ++ got ++ y) = papp es1 (feedx h1 m1 (b1 ++ y)).
 Proof.
-  intros H y. rewrite app_assoc, (feedx_app' HS handle rl h m (b ++ got) y), H. reflexivity.
+  intros H y. rewrite app_assoc, (feedx_app' HS handle rl pol h m (b ++ got) y), H. reflexivity.
 Qed.
 
 Lemma mapp_ret es r s' a' es' :
@@ -87,7 +88,7 @@ Proof.
     pose proof (firstn_skipn want avail) as FS.
     destruct (firstn want avail) as [|g0 gs] eqn:GOT.
     + (* 0-byte read: the buffer is parsed; from a settled state that is a no-op *)
-      rewrite (feedx_fuel HS handle rl) in H by (unfold mu; lia).
+      rewrite (feedx_fuel HS handle rl pol) in H by (unfold mu; lia).
       destruct G as [GS GM]. rewrite M in GS. rewrite GS in H. inversion H; subst.
       assert (G' : good (mk_mst (m_h s) RIdle (m_buf s) (S (m_cnt s)))).
       { split; cbn [m_h m_mode m_buf]; [exact GS|]. rewrite M in GM. exact GM. }
@@ -95,8 +96,8 @@ Proof.
       intros y. cbn [app]. unfold A. cbn [m_h m_mode m_buf]. rewrite M. symmetry. apply papp_nil.
     + set (got := g0 :: gs) in *.
       destruct (bufcap <? length (m_buf s) + length got); [discriminate|].
-      rewrite (feedx_fuel HS handle rl) in H by (unfold mu; rewrite app_length; lia).
-      destruct (ProofsB.feedx HS handle rl (m_h s) RIdle (m_buf s ++ got)) as [h1 m1 b1 es1| |] eqn:F1; try discriminate.
+      rewrite (feedx_fuel HS handle rl pol) in H by (unfold mu; rewrite app_length; lia).
+      destruct (ProofsB.feedx HS handle rl pol (m_h s) RIdle (m_buf s ++ got)) as [h1 m1 b1 es1| |] eqn:F1; try discriminate.
       pose proof (good_of_feed _ _ _ _ _ _ _ (S (m_cnt s)) F1) as G1.
       assert (R1 : refines s avail (mk_mst h1 m1 b1 (S (m_cnt s))) (skipn want avail) es1).
       { split; [exact G1|]. exists got. split; [symmetry; exact FS|].
@@ -117,8 +118,8 @@ Proof.
            pose proof (firstn_skipn (Nat.min (N.to_nat lft1) (cap budget (S (m_cnt s)))) (skipn want avail)) as FS2.
            remember (firstn (Nat.min (N.to_nat lft1) (cap budget (S (m_cnt s)))) (skipn want avail)) as got2.
            remember (skipn (Nat.min (N.to_nat lft1) (cap budget (S (m_cnt s)))) (skipn want avail)) as avail2.
-           rewrite (feedx_fuel HS handle rl) in H by (unfold mu; lia).
-           destruct (ProofsB.feedx HS handle rl h1 (RPay KExt lft1) got2) as [h2 m2 b2 es2| |] eqn:F2; try discriminate.
+           rewrite (feedx_fuel HS handle rl pol) in H by (unfold mu; lia).
+           destruct (ProofsB.feedx HS handle rl pol h1 (RPay KExt lft1) got2) as [h2 m2 b2 es2| |] eqn:F2; try discriminate.
            pose proof (good_of_feed _ _ _ _ _ _ _ (S (S (m_cnt s))) F2) as G2.
            assert (B1 : b1 = []) by (destruct G1 as [_ X]; exact X). subst b1.
            assert (R2 : refines (mk_mst h1 (RPay KExt lft1) [] (S (m_cnt s))) (skipn want avail)
@@ -146,8 +147,8 @@ Proof.
     destruct (firstn want avail) as [|g0 gs] eqn:GOT.
     + inversion H; subst. apply refines_refl. exact G.
     + set (got := g0 :: gs) in *.
-      rewrite (feedx_fuel HS handle rl) in H by (unfold mu; lia).
-      destruct (ProofsB.feedx HS handle rl (m_h s) (RPay k lft) got) as [h1 m1 b1 es1| |] eqn:F1; try discriminate.
+      rewrite (feedx_fuel HS handle rl pol) in H by (unfold mu; lia).
+      destruct (ProofsB.feedx HS handle rl pol (m_h s) (RPay k lft) got) as [h1 m1 b1 es1| |] eqn:F1; try discriminate.
       pose proof (good_of_feed _ _ _ _ _ _ _ (S (m_cnt s)) F1) as G1.
       assert (B : m_buf s = []) by (destruct G as [_ X]; rewrite M in X; exact X).
       assert (R1 : refines s avail (mk_mst h1 m1 b1 (S (m_cnt s))) (skipn want avail) es1).
@@ -220,7 +221,7 @@ Proof.
   intros [G1 G2] M. rewrite M in G1, G2. rewrite G2 in G1. rewrite feedx_pay in G1. cbn [length] in G1.
   destruct (N.of_nat 0 <? lft)%N eqn:E; [apply N.ltb_lt in E; exact E|].
   exfalso. destruct (handle (m_h s) (pay_done k)) as [h' v]. destruct v.
-  - destruct (ProofsB.feedx HS handle rl h' RIdle (skipn (N.to_nat lft) [])); cbn in G1; inversion G1.
+  - destruct (ProofsB.feedx HS handle rl pol h' RIdle (skipn (N.to_nat lft) [])); cbn in G1; inversion G1.
   - inversion G1.
   - inversion G1.
 Qed.
@@ -251,7 +252,7 @@ Proof.
     pose proof (firstn_le_length want avail) as FL.
     assert (FL2 : length (firstn want avail) <= want) by (rewrite firstn_length; lia).
     destruct (firstn want avail) as [|g0 gs] eqn:GOT.
-    + rewrite (feedx_fuel HS handle rl) by (unfold mu; lia).
+    + rewrite (feedx_fuel HS handle rl pol) by (unfold mu; lia).
       destruct G as [GS GM]. rewrite M in GS. rewrite GS.
       do 3 eexists. split; [reflexivity|]. split; [lia|].
       intros NE _. exfalso. apply (firstn_nonempty want avail W NE). exact GOT.
@@ -262,8 +263,8 @@ Proof.
       assert (CAP : (bufcap <? length (m_buf s) + length got) = false).
       { apply Nat.ltb_ge. unfold want in FL2. lia. }
       rewrite CAP.
-      rewrite (feedx_fuel HS handle rl) by (unfold mu; rewrite app_length; lia).
-      destruct (feedx_total' HS handle rl (m_h s) RIdle (m_buf s ++ got)) as (h1 & m1 & b1 & es1 & F1).
+      rewrite (feedx_fuel HS handle rl pol) by (unfold mu; rewrite app_length; lia).
+      destruct (feedx_total' HS handle rl pol (m_h s) RIdle (m_buf s ++ got)) as (h1 & m1 & b1 & es1 & F1).
       rewrite F1.
       pose proof (good_of_feed _ _ _ _ _ _ _ (S (m_cnt s)) F1) as G1.
       assert (REC : forall (c : nat) (h2 : HS) (m2 : rmode) (b2 : list N) (a2 : list N) (e0 : list effect) (bb : bool),
@@ -279,8 +280,8 @@ Proof.
       * apply REC; [exact G1|lia].
       * destruct k1.
         -- apply REC; [exact G1|lia].
-        -- rewrite (feedx_fuel HS handle rl) by (unfold mu; lia).
-           destruct (feedx_total' HS handle rl h1 (RPay KExt lft1)
+        -- rewrite (feedx_fuel HS handle rl pol) by (unfold mu; lia).
+           destruct (feedx_total' HS handle rl pol h1 (RPay KExt lft1)
                        (firstn (Nat.min (N.to_nat lft1) (cap budget (S (m_cnt s)))) (skipn want avail)))
              as (h2 & m2 & b2 & es2 & F2).
            rewrite F2.
@@ -298,8 +299,8 @@ Proof.
     + set (got := g0 :: gs) in *.
       assert (SK : length (skipn want avail) < length avail).
       { pose proof (f_equal (@length N) FS) as FSL. rewrite app_length in FSL. subst got. cbn [length] in FSL. lia. }
-      rewrite (feedx_fuel HS handle rl) by (unfold mu; lia).
-      destruct (feedx_total' HS handle rl (m_h s) (RPay k lft) got) as (h1 & m1 & b1 & es1 & F1).
+      rewrite (feedx_fuel HS handle rl pol) by (unfold mu; lia).
+      destruct (feedx_total' HS handle rl pol (m_h s) (RPay k lft) got) as (h1 & m1 & b1 & es1 & F1).
       rewrite F1.
       pose proof (good_of_feed _ _ _ _ _ _ _ (S (m_cnt s)) F1) as G1.
       destruct m1 as [|k1 lft1|].
@@ -338,8 +339,8 @@ Qed.
 
 (* ---- the theorem ------------------------------------------------------------------------- *)
 Theorem machine_refines_decode : forall (h : HS) (segs : list (list N)) s' avail' es,
-  run HS handle rl budget short h [] segs = MRet s' avail' es ->
-  decode HS handle rl h (concat segs) = PRes (m_h s') (m_mode s') (m_buf s') es.
+  run HS handle rl pol budget short h [] segs = MRet s' avail' es ->
+  decode HS handle rl pol h (concat segs) = PRes (m_h s') (m_mode s') (m_buf s') es.
 Proof.
   intros h segs s' avail' es H. unfold run, handover in H.
   apply mapp_ret in H. destruct H as (e2 & H & ->). cbn [app].
@@ -358,8 +359,8 @@ Qed.
 Theorem handover_dispatches_complete : forall (h : HS) (pre : list N),
   length pre < bufsz ->
   exists s0 es0,
-    handover HS handle rl budget short h pre [] = MRet s0 [] es0 /\
-    decode HS handle rl h pre = PRes (m_h s0) (m_mode s0) (m_buf s0) es0 /\
+    handover HS handle rl pol budget short h pre [] = MRet s0 [] es0 /\
+    decode HS handle rl pol h pre = PRes (m_h s0) (m_mode s0) (m_buf s0) es0 /\
     good s0.
 Proof.
   intros h pre L. unfold handover. destruct pre as [|p0 ps] eqn:P.
@@ -371,8 +372,8 @@ Proof.
     { unfold target_of. cbn [m_buf m_cnt]. subst pre. cbn [length Nat.eqb]. rewrite andb_false_r. reflexivity. }
     rewrite T. assert (LT : (length pre <? bufsz) = true) by (apply Nat.ltb_lt; exact L). rewrite LT.
     assert (W : firstn (Nat.min (bufsz - length pre) (cap budget 0)) (@nil N) = []) by apply firstn_nil.
-    rewrite W. rewrite (feedx_fuel HS handle rl) by (unfold mu; lia).
-    destruct (feedx_total' HS handle rl h RIdle pre) as (h1 & m1 & b1 & es1 & F1).
+    rewrite W. rewrite (feedx_fuel HS handle rl pol) by (unfold mu; lia).
+    destruct (feedx_total' HS handle rl pol h RIdle pre) as (h1 & m1 & b1 & es1 & F1).
     rewrite F1. exists (mk_mst h1 m1 b1 1), es1. split; [reflexivity|]. split.
     + rewrite decode_feedx. exact F1.
     + eapply good_of_feed; eauto.
@@ -386,8 +387,8 @@ Qed.
 Theorem machine_segmentation_independent : forall (h : HS) (pre : list N) (segs : list (list N)),
   length pre < bufsz ->
   exists s' es,
-    run HS handle rl budget short h pre segs = MRet s' [] es /\
-    decode HS handle rl h (pre ++ concat segs) = PRes (m_h s') (m_mode s') (m_buf s') es.
+    run HS handle rl pol budget short h pre segs = MRet s' [] es /\
+    decode HS handle rl pol h (pre ++ concat segs) = PRes (m_h s') (m_mode s') (m_buf s') es.
 Proof.
   intros h pre segs L.
   destruct (handover_dispatches_complete h pre L) as (s0 & es0 & HO & D0 & G0).
@@ -395,7 +396,7 @@ Proof.
   destruct (run_segs_refines _ _ _ _ _ G0 R) as [[G1 _] RR].
   exists s', (es0 ++ es). split.
   - unfold run. rewrite HO, R. reflexivity.
-  - rewrite decode_feedx in *. rewrite (feedx_app' HS handle rl h RIdle pre (concat segs)), D0.
+  - rewrite decode_feedx in *. rewrite (feedx_app' HS handle rl pol h RIdle pre (concat segs)), D0.
     unfold ProofsB.pbind. unfold A in RR. rewrite RR, app_nil_r, G1.
     unfold ProofsB.papp. rewrite app_nil_r. reflexivity.
 Qed.
